@@ -12,4 +12,15 @@ MUTANTS = [
     dict(id="C18", name="c18-mul-off-by-one", edits=[("launcherfinder/specs.py", "for _ in range(count - 1):", "for _ in range(count):")]),
     dict(id="C18", name="c18-days-as-hours", edits=[("launcherfinder/parser.py", 'return specs.duration(" ".join(children))', 'return specs.duration(" ".join(children).replace("d", "h").replace("hays", "hours"))')]),
     dict(id="C18", name="c18-union-last-wins", edits=[("launcherfinder/specs.py", "if match.score > max_score:", "if match.score >= max_score:")]),
+    # ---- C02
+    dict(id="C02", name="c02-hash-ignored-args", edits=[("core/objects.py", "                if argument.ignored:\n                    argvalue = value.__xpm__.values.get(argument.name, None)", "                if False:\n                    argvalue = value.__xpm__.values.get(argument.name, None)")]),
+    dict(id="C02", name="c02-no-default-comparison", edits=[("core/objects.py", "                        argument.default is not None\n                        and argument.default == remove_meta(argvalue)", "                        False")]),
+    dict(id="C02", name="c02-list-keeps-meta", edits=[("core/objects.py", "            values = [el for el in value if not is_ignored(el)]", "            values = list(value)")]),
+    dict(id="C02", name="c02-dict-keeps-meta", edits=[("core/objects.py", "                (key, value) for key, value in value.items() if not is_ignored(value)", "                (key, value) for key, value in value.items()")]),
+    dict(id="C02", name="c02-default-compare-no-remove-meta", edits=[("core/objects.py", "and argument.default == remove_meta(argvalue)", "and argument.default == argvalue")]),
+    dict(id="C02", name="c02-path-not-ignored", edits=[("core/types.py", '        """Ignore by default"""\n        return True', '        """Ignore by default"""\n        return False')]),
+    dict(id="C02", name="c02-optional-none-hashed", edits=[("core/objects.py", "                        not argument.required\n                        and argument.default is None\n                        and argvalue is None", "                        False")]),
+    dict(id="C02", name="c02-tags-hashed", edits=[("core/objects.py", "            xpmtype = value.__xpmtype__\n            self._hashupdate(xpmtype.identifier.name.encode(\"utf-8\"))", "            xpmtype = value.__xpmtype__\n            self._hashupdate(xpmtype.identifier.name.encode(\"utf-8\"))\n            self._hashupdate(repr(sorted(value.__xpm__._tags.items())).encode())")]),
+    dict(id="C02", name="c02-meta-config-hashed", edits=[("core/objects.py", "                if (\n                    argvalue is not None\n                    and isinstance(argvalue, Config)\n                    and argvalue.__xpm__.meta\n                ):\n                    continue", "                pass")]),
+    # (hashing generated parameters is an equivalent mutant here: generated values are paths, ignored by type)
 ]
